@@ -247,11 +247,19 @@ fn exec(desc: &Value, tr: &mut Tracer) -> anyhow::Result<()> {
     let mut tinfo = vec![];
     for (ti, t) in ga(desc, "trains").iter().enumerate() {
         let east = gs(t, "dir") == "E";
-        // "bo" / "bd": branch taken at a junction end for origin / destination (0 when absent)
-        let bo = t.get("bo").and_then(|x| x.as_u64()).unwrap_or(0) as usize % 2;
-        let bd = t.get("bd").and_then(|x| x.as_u64()).unwrap_or(0) as usize % 2;
-        let (o, dd) = if east { (eo[bo], ed[bd]) } else { (wo[bo], wd[bd]) };
-        let lm = build::location_map(&[o], &[dd]);
+        // "bo" / "bd": branch at a junction end used as origin / destination: 0 | 1 | 2 = both branches
+        // (a train with two origin / destination links; 0 when absent)
+        let bo = t.get("bo").and_then(|x| x.as_u64()).unwrap_or(0) as usize;
+        let bd = t.get("bd").and_then(|x| x.as_u64()).unwrap_or(0) as usize;
+        let pickb = |two: [u32; 2], b: usize| -> Vec<u32> {
+            if b >= 2 && two[0] != two[1] {
+                vec![two[0], two[1]]
+            } else {
+                vec![two[b % 2]]
+            }
+        };
+        let (os_, ds_) = if east { (pickb(eo, bo), pickb(ed, bd)) } else { (pickb(wo, bo), pickb(wd, bd)) };
+        let lm = build::location_map(&os_, &ds_);
         let tc = TrainConfig::new(
             vec![rv.clone()],
             std::collections::HashMap::from([(rv.car_type.clone(), gi(t, "ncars") as u32)]),
@@ -270,7 +278,7 @@ fn exec(desc: &Value, tr: &mut Tracer) -> anyhow::Result<()> {
             Some(init),
         );
         let sim = tsb.make_speed_limit_train_sim(&lm, None, None, None)?;
-        tinfo.push(json!({"origs":[o],"dests":[dd],"depart": qi(gf(t, "depart"), MS),
+        tinfo.push(json!({"origs":os_,"dests":ds_,"depart": qi(gf(t, "depart"), MS),
                           "len_dm": qi(sim.state.length.value, 10.0)}));
         sims.push(sim);
     }
@@ -387,7 +395,7 @@ fn gen(seed: u64, n: usize, tier: &str) -> Vec<Value> {
             t += *r.pick(&[0i64, 0, 60, 240, 600, 1800, 3600]);
             if t < 120 { t = 120; } // departures near 0 are the known class F-C15-1 (materialised in known/)
             trains.push(json!({"dir": if r.chance(1,2) {"E"} else {"W"}, "depart": t, "ncars": r.range(15, 90),
-                               "bo": r.range(0, 1), "bd": r.range(0, 1)}));
+                               "bo": r.range(0, 2), "bd": r.range(0, 2)}));
         }
         out.push(json!({"src":"gen","seed":seed,"k":k,"stages":stages,"lockouts":r.chance(1,2),"foul":2,
             "v":v,"grade":grade,"trains":trains}));
